@@ -1,7 +1,7 @@
 //! C01 — operator precedence and associativity as the Pratt tables of the real parser encode them (O-01.P).
 //! Loop-free over every token kind: a complete proof about the tables (how `parse_precedence` uses them is not decided).
 #![allow(unused)]
-use laythe_vm::compiler::parser_verif::{has_infix, has_prefix, higher, infix_precedence, TokenKind};
+use laythe_vm::compiler::parser_verif::{has_infix, has_prefix, higher, infix_action, infix_precedence, prefix_action, TokenKind};
 
 // precedence levels of laythe.bnf, loosest first (Assign < Ternary < LogicOr < LogicAnd < Equality < Comparison <
 // Addition < Multiplication < Unary < Call < Primary)
@@ -61,11 +61,71 @@ pub fn c_prefix_table() -> bool {
     && !has_prefix(TokenKind::RightParen) && !has_prefix(TokenKind::Eof) && !has_prefix(TokenKind::Semicolon)
 }
 
+// parse actions by name, as the hook numbers them
+pub const I_NONE: u8 = 0; pub const I_AND: u8 = 1; pub const I_BINARY: u8 = 2; pub const I_TERNARY: u8 = 3; pub const I_CALL: u8 = 4;
+pub const I_DOT: u8 = 5; pub const I_INDEX: u8 = 6; pub const I_OR: u8 = 7;
+pub const P_NONE: u8 = 0; pub const P_CHANNEL: u8 = 1; pub const P_GROUPING: u8 = 2; pub const P_INTERPOLATION: u8 = 3; pub const P_LAMBDA: u8 = 4;
+pub const P_LIST: u8 = 5; pub const P_LITERAL: u8 = 6; pub const P_MAP: u8 = 7; pub const P_NUMBER: u8 = 8; pub const P_SELF: u8 = 9;
+pub const P_STRING: u8 = 10; pub const P_SUPER: u8 = 11; pub const P_UNARY: u8 = 12; pub const P_INSTANCE_ACCESS: u8 = 13; pub const P_VARIABLE: u8 = 14;
+
+/// what a token in infix position means per the grammar: `and` / `or` are the short-circuit operators, the ten arithmetic / comparison
+/// operators are binary operators, `?` starts a ternary, `(` a call, `[` an index, `.` a property access
+pub fn spec_infix_action(kind: TokenKind) -> u8 {
+  match kind {
+    TokenKind::Or => I_OR,
+    TokenKind::And => I_AND,
+    TokenKind::EqualEqual | TokenKind::BangEqual | TokenKind::Greater | TokenKind::GreaterEqual | TokenKind::Less | TokenKind::LessEqual
+    | TokenKind::Minus | TokenKind::Plus | TokenKind::Slash | TokenKind::Star => I_BINARY,
+    TokenKind::QuestionMark => I_TERNARY,
+    TokenKind::LeftParen => I_CALL,
+    TokenKind::LeftBracket => I_INDEX,
+    TokenKind::Dot => I_DOT,
+    _ => I_NONE,
+  }
+}
+
+/// what a token that starts an expression means per the grammar (`-`, `!`, `<-` are the prefix operators; `|` and `||` start a lambda)
+pub fn spec_prefix_action(kind: TokenKind) -> u8 {
+  match kind {
+    TokenKind::Minus | TokenKind::Bang | TokenKind::LeftArrow => P_UNARY,
+    TokenKind::LeftParen => P_GROUPING,
+    TokenKind::LeftBracket => P_LIST,
+    TokenKind::LeftBrace => P_MAP,
+    TokenKind::Pipe | TokenKind::Or => P_LAMBDA,
+    TokenKind::Identifier => P_VARIABLE,
+    TokenKind::InstanceAccess => P_INSTANCE_ACCESS,
+    TokenKind::String => P_STRING,
+    TokenKind::StringStart => P_INTERPOLATION,
+    TokenKind::Number => P_NUMBER,
+    TokenKind::True | TokenKind::False | TokenKind::Nil => P_LITERAL,
+    TokenKind::Self_ => P_SELF,
+    TokenKind::Super => P_SUPER,
+    TokenKind::Channel => P_CHANNEL,
+    _ => P_NONE,
+  }
+}
+
+/// O-01.P for one token kind: the parse action the tables dispatch is the one the grammar gives the token — in particular Parser::binary
+/// is reached exactly for the ten binary operator tokens and Parser::unary exactly for the three prefix operators (the preconditions of
+/// the Verus contracts on those two functions)
+pub fn c_infix_action(i: usize) -> bool {
+  let kind = KINDS[i % KINDS.len()];
+  infix_action(kind) == spec_infix_action(kind)
+}
+pub fn c_prefix_action(i: usize) -> bool {
+  let kind = KINDS[i % KINDS.len()];
+  prefix_action(kind) == spec_prefix_action(kind)
+}
+
 #[cfg(kani)]
 mod proofs {
   use super::*;
   #[kani::proof]
   fn o01_p_infix_table() { let i: usize = kani::any(); kani::assume(i < 69); assert!(c_infix_table(i)); }
+  #[kani::proof]
+  fn o01_p_infix_action() { let i: usize = kani::any(); kani::assume(i < 69); assert!(c_infix_action(i)); }
+  #[kani::proof]
+  fn o01_p_prefix_action() { let i: usize = kani::any(); kani::assume(i < 69); assert!(c_prefix_action(i)); }
   #[kani::proof]
   fn o01_p_higher() { assert!(c_higher(kani::any())); }
   #[kani::proof]
